@@ -51,6 +51,7 @@ def dispatch (l : Line) : List Verdict :=
   | "ratelimit" => handleRateLimit l
   | "sched" => handleSched l
   | "lockwait" => handleLockWait l
+  | "mixedcfg" => handleMixedCfg l
   | "retry" => handleRetry l
   | "fault" => handleFault l
   | "faultdry" => [Verdict.ok]
